@@ -278,13 +278,13 @@ func (m *ldbManager) Get(identifier types.HashHeight) DB {
 		})
 	}
 
+	// rawChanges uses the encoding of enableDelete (empty value = not present), exactly like the frontier
 	u := newMergedDb([]db{
 		newMemDBInternal(),
-		newSkipDelete(
-			newMergedDb([]db{
-				rawChanges,
-				newSubDB(frontierByte, newLevelDBSnapshotWrapper(snapshot)),
-			})),
+		newMergedDb([]db{
+			rawChanges,
+			newSubDB(frontierByte, newLevelDBSnapshotWrapper(snapshot)),
+		}),
 	})
 	return enableDelete(u)
 }
